@@ -65,7 +65,7 @@ def main():
         latest = meta.get("own_check_latest") or {}
         own = "yes" if prop in now else (f"yes (own check alone, {latest.get('commit')})" if latest.get("caught") else
                                          ("not claimed (see meta.json)" if meta.get("not_claimed") else "NO"))
-        srows.append(f"| {name} | {prop} | {meta.get('summary', '')[:100]} | {', '.join(first) or '-'} | {', '.join(now) or '-'} | {own} | {meta.get('evaluated_with_verif_commit', '?')} |")
+        srows.append(f"| {name} | {prop} | {meta.get('summary', '')[:100]} | {', '.join(first) or '-'} | {', '.join(now) or '-'} | {own} | {meta.get('evaluated_with_verif_commit') or ((latest.get('commit') + ' (own check only)') if latest.get('commit') else 'first evaluation only')} |")
     with open(os.path.join(VERIF, "seeded", "README.md"), "w") as f:
         f.write("# Seeded changes\n\nEach directory holds a change to robotools written by an independent sub-agent (given only the text of one\n"
                 "property and a scratch git worktree of /repo), `demo.py` (fails with the change, passes without), `notes.md` (the author's\n"
